@@ -788,17 +788,20 @@ func (tree *MutableTree) SaveVersion() ([]byte, int64, error) {
 	} else {
 		if tree.root.nodeKey != nil {
 			// it means there are no updated nodes
-			if err := tree.ndb.SaveRoot(version, tree.root.nodeKey); err != nil {
-				return nil, 0, err
-			}
 			// it means the reference node is a legacy node
 			if tree.root.isLegacy {
 				// it will update the legacy node to the new format
 				// which ensures the reference node is not a legacy node
+				// (written before the root entry that refers to it: the batch
+				// may be flushed in between, and the root entry is what makes
+				// the version exist)
 				tree.root.isLegacy = false
 				if err := tree.ndb.SaveNode(tree.root); err != nil {
 					return nil, 0, fmt.Errorf("failed to save the reference legacy node: %w", err)
 				}
+			}
+			if err := tree.ndb.SaveRoot(version, tree.root.nodeKey); err != nil {
+				return nil, 0, err
 			}
 		} else {
 			if err := tree.saveNewNodes(version); err != nil {
